@@ -36,6 +36,7 @@ func c07(c *Ctx) {
 	r.Floor("R3.record-ip", 1)
 	r.Floor("R4.mapping", 3)
 	r.Floor("R5.pairing", 4)
+	r.Floor("R6.reval-pointer-nil-guard", 3)
 
 	// ---------------- R1 lock discipline
 	sites := map[*ssa.Function][]core.LockSite{}
@@ -368,6 +369,80 @@ func c07(c *Ctx) {
 		wr := core.InstrGuarded(w.Store, func(fs []core.Fact) bool { return ipSame(fs) || ipGate.Edge(fs) }, nil)
 		r.Check(wr == nil, "R3.record-ip", m.key(w, "record-replaced"), p.Pos(w.Store.Pos()),
 			"a stored record is replaced only when its IP is unchanged or the new IP passed the limit reservation", "a node's record can be replaced without re-checking the /24 limits for its new address (the IP counters go stale): "+p.PathString(wr))
+	}
+
+	// ---------------- R6 a node's revalidation-list pointer is nil while the node is not tracked
+	// (removed nodes, stale answers): every dereference must be guarded by a nil test of that
+	// same node's pointer, or follow the assignment that sets it
+	{
+		setsNonNil := func(in ssa.Instruction, base ssa.Value) bool {
+			st, ok := in.(*ssa.Store)
+			if !ok {
+				return false
+			}
+			t, f, b2, ok := core.FieldRef(st.Addr)
+			return ok && t == "tableNode" && f == "revalList" && core.SameValue(b2, base) && !core.IsNilConst(st.Val)
+		}
+		n := 0
+		for _, fn := range p.ModuleFuncs() {
+			if fn.Pkg != p.SSAPkg("portalwire") && (fn.Parent() == nil || fn.Parent().Pkg != p.SSAPkg("portalwire")) {
+				continue
+			}
+			perFn := 0
+			for _, b := range fn.Blocks {
+				for _, in := range b.Instrs {
+					// dereference of a value loaded from tableNode.revalList
+					var ptr ssa.Value
+					switch x := in.(type) {
+					case *ssa.FieldAddr:
+						ptr = x.X
+					case *ssa.Call:
+						if !x.Call.IsInvoke() && len(x.Call.Args) > 0 {
+							if cf := core.StaticCalleeFn(x); cf != nil && cf.Signature.Recv() != nil && core.TypeName(cf.Signature.Recv().Type()) == "revalidationList" {
+								ptr = x.Call.Args[0]
+							}
+						}
+					}
+					if ptr == nil {
+						continue
+					}
+					u, ok := ptr.(*ssa.UnOp)
+					if !ok || u.Op != token.MUL {
+						continue
+					}
+					t, f, base, ok := core.FieldRef(u.X)
+					if !ok || t != "tableNode" || f != "revalList" {
+						continue
+					}
+					n++
+					perFn++
+					guard := core.AnyFact(func(fc core.Fact) bool {
+						if fc.Op != token.NEQ {
+							return false
+						}
+						is := func(v ssa.Value) bool {
+							u2, ok := v.(*ssa.UnOp)
+							if !ok || u2.Op != token.MUL {
+								return false
+							}
+							t2, f2, b2, ok := core.FieldRef(u2.X)
+							return ok && t2 == "tableNode" && f2 == "revalList" && core.SameValue(b2, base)
+						}
+						return (is(fc.X) && core.IsNilConst(fc.Y)) || (is(fc.Y) && core.IsNilConst(fc.X))
+					})
+					w := core.InstrGuarded(in, guard, nil)
+					if w != nil {
+						// or the pointer was just assigned on every path
+						if core.MustPassBefore(in, func(i2 ssa.Instruction) bool { return setsNonNil(i2, base) }) == nil {
+							w = nil
+						}
+					}
+					r.Check(w == nil, "R6.reval-pointer-nil-guard", fmt.Sprintf("%s deref #%d", core.FuncName(fn), perFn), p.Pos(core.InstrPos(in)),
+						"revalList is dereferenced only after a nil test of the same node's pointer", "a node's revalidation-list pointer is dereferenced without a nil test of that node: for a node that was removed from the table meanwhile (stale revalidation answer, re-added id) the pointer is nil and the table loop panics: "+p.PathString(w))
+				}
+			}
+		}
+		r.Count("revalList_dereferences", n)
 	}
 
 	// ---------------- R4 mapping distance -> bucket
